@@ -291,6 +291,9 @@ def main_wrapper(prop, runner, argv=None):
             # a recorded operation history (harness/optrace.py): re-record it from its seed and validate it again
             from harness import optrace
             optrace.replay(chk, replay["scenario"])
+        elif replay and isinstance(replay.get("scenario"), dict) and replay["scenario"].get("poolenv"):
+            from harness import poolenv
+            poolenv.replay(chk, replay["scenario"])
         elif replay and isinstance(replay.get("scenario"), dict) and replay["scenario"].get("keys"):
             from harness import keys
             keys.replay(chk, replay["scenario"])
